@@ -83,6 +83,9 @@ type Opts struct {
 	// Pools, when set, installs one magic block per entry (miner sets given as indices into Keys): the first starts
 	// at round 0, the following ones at round 100, 200, … (a view change). Each magic block has its own node objects.
 	Pools [][]int
+	// PoolT / PoolStart optionally give the T (DKG threshold) and the starting round of each magic block of Pools.
+	PoolT     []int
+	PoolStart []int64
 }
 
 // New builds a fresh chain + miner chain. Everything a previous fixture registered globally is replaced.
@@ -129,13 +132,16 @@ func New(o Opts) *Fix {
 		}
 		node.RegisterNode(nd) // every node the process knows is in the global registry
 	}
-	node.Self = &node.SelfNode{}
-	node.Self.Node = f.Nodes[o.Self]
+	// the self node is published only when complete: a broadcast goroutine a handler of the PREVIOUS fixture started may
+	// still call node.Self.Sign
+	sn := &node.SelfNode{}
+	sn.Node = f.Nodes[o.Self]
 	sk := o.SelfKey
 	if sk == nil {
 		sk = f.Keys[o.Self]
 	}
-	node.Self.SetSignatureScheme(sk)
+	sn.SetSignatureScheme(sk)
+	node.Self = sn
 
 	mb := block.NewMagicBlock()
 	mb.Miners = np
@@ -143,6 +149,9 @@ func New(o Opts) *Fix {
 	mb.T, mb.N = o.T, o.N
 	if o.Pools != nil {
 		mb.T, mb.N = len(o.Pools[0]), len(o.Pools[0])
+		if o.PoolT != nil {
+			mb.T = o.PoolT[0]
+		}
 	}
 	mb.StartingRound = 0
 	mb.MagicBlockNumber = 1
@@ -210,6 +219,12 @@ func New(o Opts) *Fix {
 		m.Sharders = node.NewPool(node.NodeTypeSharder)
 		m.T, m.N = len(o.Pools[i]), len(o.Pools[i])
 		m.StartingRound = int64(100 * i)
+		if o.PoolT != nil {
+			m.T = o.PoolT[i]
+		}
+		if o.PoolStart != nil {
+			m.StartingRound = o.PoolStart[i]
+		}
 		m.MagicBlockNumber = prev.MagicBlockNumber + 1
 		m.PreviousMagicBlockHash = prev.Hash
 		m.Hash = m.GetHash()
